@@ -272,6 +272,7 @@ def r5(ctx):
 
 
 def run(ctx):
+    scan_rule(ctx, "C05")
     r5(ctx)
     r1(ctx)
     r2(ctx)
